@@ -258,6 +258,7 @@ func (fr *Frame) invArgs(l *Loop, cl *Clause, st *State, sub func(*ssa.Phi) (Val
 	for _, p := range fr.fn.Params {
 		args = append(args, fr.get(p))
 	}
+	args = append(args, vc.rootLogicals...)
 	args = append(args, vc.rootOlds...)
 	for _, lv := range cl.Locals {
 		v, ok := fr.localAt(l, lv)
